@@ -84,6 +84,7 @@ type binfo struct {
 	signed    *big.Int
 	own23     bool
 	allSigsOK bool
+	dupSig    bool // the commit carries two block votes under the same validator address
 	sigs      []sigEnt
 	canon     bool
 	extra     map[string]bool // lazily verified (idx|pub) pairs
@@ -143,6 +144,11 @@ func computeInfo(chainID string, lb *types.LightBlock) *binfo {
 			continue
 		}
 		e := sigEnt{idx: i, addr: string(cs.ValidatorAddress)}
+		for _, prev := range b.sigs {
+			if prev.addr == e.addr {
+				b.dupSig = true
+			}
+		}
 		if oneToOne && vals[i].PubKey != nil {
 			e.pub = string(vals[i].PubKey.Bytes())
 			e.power = vals[i].VotingPower
@@ -169,9 +175,10 @@ func overlap(chainID string, T, B *binfo) *big.Int {
 	if T.lb == nil || T.lb.ValidatorSet == nil || B.lb == nil || B.lb.Commit == nil {
 		return sum
 	}
+	counted := map[string]bool{}
 	for _, v := range T.lb.ValidatorSet.Validators {
-		if v.PubKey == nil {
-			continue
+		if v.PubKey == nil || counted[string(v.Address)] {
+			continue // a key counts once, however often the (possibly forged) trusted set lists it
 		}
 		addr, pub := string(v.Address), string(v.PubKey.Bytes())
 		for _, e := range B.sigs {
@@ -190,6 +197,7 @@ func overlap(chainID string, T, B *binfo) *big.Int {
 			}
 			if ok {
 				sum.Add(sum, big.NewInt(v.VotingPower))
+				counted[addr] = true
 				break
 			}
 		}
@@ -444,13 +452,15 @@ type fork struct {
 	nvh   string  // self | canon : NextValidatorsHash of forged headers (lun, vs=coal)
 	ghost []int   // vs=coal: further validators (power 1 each) whose "signatures" are bogus bytes
 	nilv  bool    // non-coalition validators carry VALID precommits for nil (as a failed round leaves behind)
+	dup   int     // vs=coal: every coalition member is listed dup extra times in the forged set (same key, signed slot each)
+	th    int64   // tmode=tip: the fork's top block carries the time of canonical height th (+dt); lower forged heights 1ms earlier each
 	cache map[int64]*types.LightBlock
 }
 
 func forkFromOp(o simcore.Op) *fork {
 	f := &fork{id: o.Int("id"), c: o.Int64("c"), shape: o.Str("shape"), keys: o.Ints("keys"), vs: o.Str("vs"),
 		extra: o.Int64("extra"), tmode: o.Str("tmode"), dt: o.Int64("dt"), rd: o.Int("rd"), top: o.Int64("top"),
-		bs: o.Bool("bs"), nilv: o.Bool("nil"), nvh: o.Str("nvh"), ghost: o.Ints("ghost"), cache: map[int64]*types.LightBlock{}}
+		bs: o.Bool("bs"), nilv: o.Bool("nil"), nvh: o.Str("nvh"), ghost: o.Ints("ghost"), dup: o.Int("dup"), th: o.Int64("th"), cache: map[int64]*types.LightBlock{}}
 	for _, p := range o.Ints("pw") {
 		f.pw = append(f.pw, int64(p))
 	}
@@ -476,7 +486,7 @@ func (f *fork) valid() bool {
 		}
 		seen[k] = true
 	}
-	if len(f.ghost) > 64 {
+	if len(f.ghost) > 64 || f.dup < 0 || f.dup > 4 || f.th < 0 {
 		return false
 	}
 	return f.extra >= 0 && f.extra < 1<<40 && f.c >= 0
@@ -516,12 +526,21 @@ func (f *fork) block(ch *chainData, h int64) *types.LightBlock {
 		hdr.Time = ch.timeOf(cAt).Add(-time.Duration(h-f.c) * time.Second)
 	case "same":
 		hdr.Time = ch.timeOf(cAt)
+	case "tip":
+		th := f.th
+		if th < ch.initial {
+			th = ch.initial
+		}
+		if th > ch.tip {
+			th = ch.tip
+		}
+		hdr.Time = ch.timeOf(th).Add(time.Duration(f.dt) - time.Duration(f.top-h)*time.Millisecond)
 	default:
 		hdr.Time = hdr.Time.Add(time.Duration(f.dt))
 	}
-	coal := map[int]bool{}
+	coalAddr := map[string]int{}
 	for _, k := range f.keys {
-		coal[k] = true
+		coalAddr[string(chaingen.Key(k).PubKey().Address())] = k
 	}
 	var vset *types.ValidatorSet
 	round := base.Commit.Round
@@ -546,6 +565,20 @@ func (f *fork) block(ch *chainData, h int64) *types.LightBlock {
 			vals = append(vals, types.NewValidator(chaingen.Key(k).PubKey(), 1))
 		}
 		vset = types.NewValidatorSet(vals)
+		if f.dup > 0 {
+			// the same coalition keys listed several times: NewValidatorSet refuses duplicates, but
+			// neither ValidatorSetFromProto nor ValidateBasic does, so a provider can deliver this
+			list := []*types.Validator{}
+			for _, v := range vset.Validators {
+				list = append(list, v.Copy())
+				if _, member := coalAddr[string(v.Address)]; member {
+					for d := 0; d < f.dup; d++ {
+						list = append(list, v.Copy())
+					}
+				}
+			}
+			vset = &types.ValidatorSet{Validators: list, Proposer: list[0].Copy()}
+		}
 		hdr.ValidatorsHash = vset.Hash()
 		if f.nvh != "canon" {
 			hdr.NextValidatorsHash = vset.Hash()
@@ -766,6 +799,13 @@ func drawFork(rng *simcore.RNG, ch *chainData, id int, ref int64, num, den int64
 			if rng.Bool(0.2) {
 				o["nvh"] = "canon"
 			}
+			pd := 0.2
+			if class == "below" || class == "at" {
+				pd = 0.6 // below the trust level the copies are what could push the tally over it
+			}
+			if rng.Bool(pd) {
+				o["dup"] = rng.Range(1, 3) // coalition members listed 2..4 times in the forged set
+			}
 			if (class == "below" || class == "at" || class == "rand") && rng.Bool(0.4) {
 				// members of the reference set outside the coalition appear with forged signatures
 				in := map[int]bool{}
@@ -809,6 +849,32 @@ func drawFork(rng *simcore.RNG, ch *chainData, id int, ref int64, num, den int64
 	o["top"] = top
 	o["bs"] = rng.Bool(0.15)
 	o["nil"] = rng.Bool(0.25)
+	return o
+}
+
+// drawTipFork draws a forward-lunatic fork: canonical up to height th (the head of an honest,
+// possibly lagging provider), forged above it, and the fork's top header carries exactly the
+// time of canonical block th (or 1ns around it). A lagging honest witness asked for the top
+// height answers "too high" and then presents block th, which conflicts by time.
+func drawTipFork(rng *simcore.RNG, ch *chainData, id int, ref int64, num, den int64, th int64) simcore.Op {
+	var o simcore.Op
+	for try := 0; try < 5; try++ {
+		o = drawFork(rng, ch, id, ref, num, den)
+		if cl := o.Str("class"); cl == "above" || cl == "all" || cl == "above23" {
+			break
+		}
+	}
+	if th > ch.tip {
+		th = ch.tip
+	}
+	if th < ch.initial {
+		th = ch.initial
+	}
+	o["c"] = th
+	o["th"] = th
+	o["top"] = th + int64(rng.Range(1, 3))
+	o["tmode"] = "tip"
+	o["dt"] = []int64{0, 0, 0, 0, -1, 1, -int64(rng.Range(2, 2000)), int64(rng.Range(2, 2000))}[rng.Intn(8)]
 	return o
 }
 
@@ -930,6 +996,19 @@ func genConfig(rng *simcore.RNG, env *simcore.Env) simcore.Op {
 				tl = [2]int64{s, total}
 			}
 		}
+	}
+	if anyByz && rng.Bool(0.5) {
+		th := ch.tip
+		var hon []int
+		for i, p := range provs {
+			if p.Str("k") == "hon" && i != prim {
+				hon = append(hon, i)
+			}
+		}
+		if len(hon) > 0 {
+			th = ch.tip - int64(provs[hon[rng.Intn(len(hon))]].Int("lag"))
+		}
+		forks = append(forks, drawTipFork(rng, ch, len(forks), root, tl[0], tl[1], th))
 	}
 	c["forks"] = forks
 	c["tl_num"], c["tl_den"] = tl[0], tl[1]
@@ -1236,7 +1315,22 @@ func (s *sim) Next(rng *simcore.RNG) simcore.Op {
 	}
 	if s.cfg.Bool("mkfork") && rng.Bool(0.12) {
 		hs := s.heights()
-		o := drawFork(rng, s.ch, s.nextFork, hs[len(hs)-1], s.num, s.den)
+		var o simcore.Op
+		if rng.Bool(0.3) {
+			th := s.ch.tip
+			var hon []int
+			for i, pc := range s.provCfgs {
+				if pc.kind == "hon" {
+					hon = append(hon, i)
+				}
+			}
+			if len(hon) > 0 {
+				th = s.ch.tip - s.provCfgs[hon[rng.Intn(len(hon))]].lag + s.grown
+			}
+			o = drawTipFork(rng, s.ch, s.nextFork, hs[len(hs)-1], s.num, s.den, th)
+		} else {
+			o = drawFork(rng, s.ch, s.nextFork, hs[len(hs)-1], s.num, s.den)
+		}
 		o["a"] = "mkfork"
 		return o
 	}
@@ -1253,7 +1347,7 @@ func (s *sim) drawCall(rng *simcore.RNG) simcore.Op {
 	o := simcore.Op{"a": "call", "k": []string{"vh", "up", "hdr"}[rng.Weighted([]int{70, 20, 10})], "src": -1}
 	var h int64
 	for try := 0; try < 8; try++ {
-		switch rng.Weighted([]int{10, 10, 30, 15, 4, 10, 14, 3, 4}) {
+		switch rng.Weighted([]int{10, 10, 30, 15, 4, 10, 14, 3, 9}) {
 		case 0:
 			h = latest + 1
 		case 1:
@@ -1400,6 +1494,19 @@ func (s *sim) drawReply(rng *simcore.RNG, r *request) simcore.Op {
 			o["b"], o["g"] = "raw", []string{"chain", "vals", "commit", "height"}[rng.Intn(4)]
 		}
 		return o
+	}
+	if len(ids) > 0 && r.prov == s.call.primBefore && s.call.leadFork < 0 {
+		// a forging primary asked for its head (or for the very height a forward-lunatic fork tops
+		// out at) likes to present that fork
+		var tips []int
+		for _, id := range ids {
+			if f := s.forks[id]; f.tmode == "tip" && (r.h == 0 || r.h == f.top) {
+				tips = append(tips, id)
+			}
+		}
+		if len(tips) > 0 && rng.Bool(0.5) {
+			return serveFork(tips[rng.Intn(len(tips))])
+		}
 	}
 	if len(ids) > 0 {
 		if lf := s.call.leadFork; lf >= 0 && s.forks[lf] != nil && rng.Intn(100) < s.cfg.Int("collude") {
@@ -1700,7 +1807,7 @@ func mutateRaw(ch *chainData, lb *types.LightBlock, g string) *types.LightBlock 
 			}
 			vals = append(vals, nv)
 		}
-		cp.ValidatorSet = types.NewValidatorSet(vals)
+		cp.ValidatorSet = &types.ValidatorSet{Validators: vals, Proposer: vals[0].Copy()} // (the set may list a key twice)
 		cp.ValidatorSet.TotalVotingPower()
 	case "commit":
 		h := append([]byte{}, cp.Commit.BlockID.Hash...)
@@ -1863,7 +1970,7 @@ func (s *sim) cleanProvider(c *call, x int, t0 *binfo, sc *stepCtx, pendAtEnd ma
 			}
 			continue
 		}
-		if !b.wf || !b.own23 || !b.allSigsOK || !b.t.After(prev.t) || !b.t.Before(sc.now.Add(sc.drift)) {
+		if !b.wf || !b.own23 || !b.allSigsOK || b.dupSig || !b.t.After(prev.t) || !b.t.Before(sc.now.Add(sc.drift)) {
 			return nil, false
 		}
 		if b.h == prev.h+1 && !bytes.Equal(prev.lb.NextValidatorsHash, b.lb.ValidatorsHash) {
@@ -2259,6 +2366,45 @@ func (s *sim) finishCall() {
 					}
 					e.Fail("C09", sig, "call %s(h=%d): the client trusted the forged header %d (%s) from primary %d although the honest witness %d answered that height with the canonical header (late=%v) and holds the whole canonical chain from trusted height %d (replies: %s)",
 						c.kind, c.h, target.h, hx(target.hash), prim, r.prov, r.late, t0.h, replySummary(c, target.h))
+					break
+				}
+			}
+		}
+	}
+
+	if target != nil {
+		for _, r := range c.replies {
+			if r.prov != prim && r.blk != nil && r.reqH == 0 && r.blk.canon && r.blk.h < target.h && !target.canon && !r.blk.t.Before(target.t) {
+				e.Count("probe.lagging_witness_time_conflict")
+				if r.blk.t.Equal(target.t) {
+					e.Count("probe.lagging_witness_time_conflict_equal")
+				}
+				break
+			}
+		}
+	}
+
+	// 3c. forward lunatic: the client trusted a forged header above the head of an honest witness
+	// although that witness, asked for its latest block, presented a canonical block that is
+	// not older than the forged header (the spec's and the detector's time conflict), lies above
+	// the trusted block, is verifiable now, and the witness holds the chain from the trusted
+	// block up to it
+	if target != nil && t0 != nil && !c.cancelled && prim == primAfter && c.retErr == nil && !target.canon && t0.canon && !sc.expired(t0) {
+		if b, ok := post[target.h]; ok && b.hash == target.hash {
+			first := -1
+			for i, r := range c.replies {
+				if r.prov == prim || !differs(r, target) {
+					continue
+				}
+				if first < 0 {
+					first = i
+				}
+				pc := s.provCfgs[r.prov]
+				if pc.kind == "hon" && r.blk.canon && r.reqH == 0 && r.blk.h < target.h && r.blk.h > t0.h && pc.base <= t0.h &&
+					r.blk.t.Before(c.now.Add(s.drift)) {
+					_ = first
+					e.Fail("C09", "attack-undetected", "call %s(h=%d): the client trusted the forged header %d (%s, time %d) from primary %d although the honest witness %d, whose head is below that height, presented its latest canonical block %d with time %d (not older, late=%v) and holds the canonical chain from trusted height %d (replies: %s)",
+						c.kind, c.h, target.h, hx(target.hash), tOff(target.t), prim, r.prov, r.blk.h, tOff(r.blk.t), r.late, t0.h, replySummary(c, target.h))
 					break
 				}
 			}
